@@ -28,14 +28,21 @@ def canBeElement : VT → Bool
   | .void | .slice _ | .slicePtr _ | .endless _ | .view _ => false
   | _ => true
 
+/-- `is_wellformed_sized_element`: the elements of an array with a length have a size, which `[]T` lacks (F60) -/
+def canBeSizedElement : VT → Bool
+  | .arraylike _ => false
+  | t => canBeElement t
+
 mutual
 def isWellformed : VT → Bool
-  | .array t | .slice t | .slicePtr t | .endless t | .arraylike t => canBeElement t && isWellformedInner t
+  | .array t => canBeSizedElement t && isWellformedInner t
+  | .slice t | .slicePtr t | .endless t | .arraylike t => canBeElement t && isWellformedInner t
   | .pointer t | .view t => isWellformedInner t
   | _ => true
 def isWellformedInner : VT → Bool
   | .void => false
-  | .array t | .endless t | .arraylike t => canBeElement t && isWellformedInner t
+  | .array t => canBeSizedElement t && isWellformedInner t
+  | .endless t | .arraylike t => canBeElement t && isWellformedInner t
   | .slice _ | .slicePtr _ | .view _ => false
   | .pointer t => isWellformedInner t
   | _ => true
